@@ -57,6 +57,8 @@ def opt_list(o):
         if o.get(k):
             out.append("-" + k)
     out += ["-conc", str(o.get("conc", 2))]
+    if o.get("lblk"):
+        out += ["-lblk", str(o["lblk"])]
     return out
 
 
